@@ -77,6 +77,7 @@ type history struct {
 	entries   []entry
 	dumpEvery int
 	resource  bool // attach a real raft storage backend (else NullStorageBackend)
+	replicas  int  // fresh FSMs in this process (>= 2)
 }
 
 type family struct {
@@ -92,6 +93,7 @@ var families = []family{
 	{"intention", (*gen).genIntention}, {"ca", (*gen).genConnectCA}, {"ca-leaf", (*gen).genCALeaf}, {"acl", (*gen).genACL},
 	{"config-entry", (*gen).genConfigEntry}, {"peering", (*gen).genPeering}, {"resource", (*gen).genResource},
 	{"manual-vip", (*gen).genManualVIPs}, {"legacy-acl", (*gen).genLegacyACL},
+	{"gateway-vip", (*gen).genGatewayVIP},
 }
 
 // profile -> family weights (families not listed get weight 1)
@@ -106,8 +108,17 @@ var profiles = map[string]map[string]int{
 	"intentions": {"intention": 35, "txn": 8, "config-entry": 10, "sysmeta": 4},
 	"vip":        {"manual-vip": 30, "register": 25, "deregister": 8, "sysmeta": 3, "config-entry": 4},
 	"resource":   {"resource": 40},
+	// terminating / ingress gateways with many linked services, rewrites that drop several links in
+	// one command, virtual-IP allocation and release, other multi-removal shapes
+	"gateway-vip": {"gateway-vip": 60, "register": 6, "deregister": 4, "config-entry": 5, "manual-vip": 4, "sysmeta": 1},
 }
-var profileNames = []string{"mixed", "mixed", "catalog", "kv", "acl", "config", "config", "peering", "ca", "intentions", "vip", "vip", "resource"}
+var profileNames = []string{"mixed", "mixed", "catalog", "kv", "acl", "config", "config", "peering", "ca", "intentions", "vip", "vip", "resource",
+	"gateway-vip", "gateway-vip", "gateway-vip"}
+
+// in-process replicas per history (replica A included): command shapes whose implementation walks Go
+// maps get more fresh FSMs, so that an order dependence shows with high probability (k equally likely
+// outcomes agree on all of n replicas with probability k^(1-n))
+var profileReplicas = map[string]int{"gateway-vip": 8, "vip": 6, "config": 5, "catalog": 4}
 
 func (g *gen) pickFamily() family {
 	w := profiles[g.profile]
@@ -138,15 +149,19 @@ func genHistory(id int, r *hx.RNG, maxLen int) *history {
 	g := newGen(r, profile)
 	h := &history{id: id, profile: profile, dumpEvery: 1 + r.Intn(8)}
 	h.resource = profile == "resource" || r.Chance(25)
+	h.replicas = 2
+	if n, ok := profileReplicas[profile]; ok {
+		h.replicas = n
+	}
 	add := func(data []byte, tag string) {
 		h.entries = append(h.entries, entry{Index: g.idx, Data: data, Tag: tag})
 		g.used = append(g.used, g.idx)
 		g.idx += uint64(1 + r.Intn(3)) // raft indexes are strictly increasing, with gaps (no-ops, config changes)
 	}
 	// preamble: switches that open up code paths
-	if profile == "vip" || r.Chance(35) {
+	if profile == "vip" || profile == "gateway-vip" || r.Chance(35) {
 		add(sysmeta(structs.SystemMetadataVirtualIPsEnabled, "true"), "pre:virtual-ips")
-		if r.Chance(50) {
+		if profile == "gateway-vip" && !r.Chance(8) || r.Chance(50) {
 			add(sysmeta(structs.SystemMetadataTermGatewayVirtualIPsEnabled, "true"), "pre:virtual-ips-tgw")
 		}
 	}
@@ -890,19 +905,32 @@ func main() {
 	parallel(nHist, func(i int) {
 		h := hs[i]
 		a := runHistory(h, 0, 1, false)
-		b := runHistory(h, 1, h.dumpEvery, false)
-		if b.expired > 0 {
-			mu.Lock()
-			expiredHistories++
-			mu.Unlock()
-		}
-		fs := compare(h, a, b, "replica A' (same process)", false)
-		if len(fs) > 0 {
-			// re-run both verbosely, dumping after every entry, to name the first diverging command and row
-			av := runHistory(h, 0, 1, true)
-			bv := runHistory(h, 1, 1, true)
-			if fv := compare(h, av, bv, "replica A' (same process)", true); len(fv) > 0 {
-				fs = fv
+		var fs []finding
+		for k := 1; k < h.replicas; k++ {
+			variant, who := 1, "replica A' (same process)"
+			if k > 1 {
+				variant, who = k+1, fmt.Sprintf("replica A%d (same process)", k) // 2 is the child's variant
+			}
+			b := runHistory(h, variant, h.dumpEvery, false)
+			if b.expired > 0 {
+				mu.Lock()
+				expiredHistories++
+				mu.Unlock()
+			}
+			fk := compare(h, a, b, who, false)
+			if len(fk) > 0 {
+				// re-run a pair verbosely, dumping after every entry, to name the first diverging command and
+				// row; a map-order dependence may not show on the first pair, so try a few
+				for try := 0; try < 6; try++ {
+					av := runHistory(h, 0, 1, true)
+					bv := runHistory(h, variant, 1, true)
+					if fv := compare(h, av, bv, who, true); len(fv) > 0 {
+						fk = fv
+						break
+					}
+				}
+				fs = append(fs, fk...)
+				break
 			}
 		}
 		fs = append(fs, rejectedMutates(h, a)...)
